@@ -47,7 +47,38 @@ func reportProblems(r *Report, cs *CodecSet, d *Dispatch) {
 	}
 }
 
+// applyImages runs the wire-image rule (codec.image) for every message and takes the messages
+// whose functions E1 cannot classify, but whose images are all decided and reproduced, out of the
+// slot rules (their `codec.unclassified` problems are withdrawn with a note).
+func applyImages(w *World, r *Report, cs *CodecSet) int {
+	spec, err := loadSpecMessages()
+	if err != nil {
+		return 0
+	}
+	good := checkCodecImages(w, r, cs, spec, nil, true)
+	r.Expect("codec.image", 900)
+	skipped := 0
+	var keep []*Codec
+	for _, c := range cs.Codecs {
+		if len(c.Problems) > 0 && good[c.Name] {
+			c.ByImages = true
+			skipped++
+			r.Note("%s: %d statements outside the generator's forms (first: %s); every wire image of the message is decided by evaluation and reproduced, the slot rules of E1 are not applied to it", c.Name, len(c.Problems), c.Problems[0].Msg)
+			c.Problems = nil
+			continue
+		}
+		keep = append(keep, c)
+	}
+	cs.Codecs = keep
+	cs.skipped = skipped
+	return skipped
+}
+
 func codecVacuity(r *Report, cs *CodecSet) {
+	if cs.skipped > 0 {
+		r.Note("vacuity thresholds of the slot rules not applied: %d message(s) decided by wire images", cs.skipped)
+		return
+	}
 	nslots := 0
 	for _, c := range cs.Codecs {
 		r.Site("codec.messages")
@@ -129,6 +160,7 @@ func acceptedSet(sl *DecSlot) (LenSet, bool) {
 func propC02(w *World, r *Report, tier string) {
 	cs := ExtractCodecs(w)
 	d := ExtractDispatch(w, cs)
+	applyImages(w, r, cs)
 	reportProblems(r, cs, d)
 	codecVacuity(r, cs)
 	spec, err := loadSpecMessages()
@@ -380,6 +412,7 @@ func checkDispatchDual(r *Report, d *Dispatch, cs *CodecSet) {
 func propC03(w *World, r *Report, tier string) {
 	cs := ExtractCodecs(w)
 	d := ExtractDispatch(w, cs)
+	applyImages(w, r, cs)
 	reportProblems(r, cs, d)
 	codecVacuity(r, cs)
 	r.Explanation = "Stability of re-encoding decided from code shape (E1): (1) the decoder stores the received identifier, length and value " +
@@ -537,6 +570,7 @@ func propC03(w *World, r *Report, tier string) {
 
 func propC04(w *World, r *Report, tier string) {
 	cs := ExtractCodecs(w)
+	applyImages(w, r, cs)
 	reportProblems(r, cs, nil)
 	codecVacuity(r, cs)
 	spec, err := loadSpecMessages()
@@ -562,6 +596,9 @@ func propC04(w *World, r *Report, tier string) {
 	for _, sm := range spec.Messages {
 		seen[sm.Name] = true
 		c := cs.ByName[sm.Name]
+		if c != nil && c.ByImages {
+			continue
+		}
 		if c == nil {
 			r.Fail("table.messages", "nasMessage."+sm.Name, "missing", token.NoPos, "message "+sm.Name+" of the table has no codec", nil)
 			continue
@@ -780,7 +817,9 @@ func propC04(w *World, r *Report, tier string) {
 			r.Fail("table.messages", "nasMessage."+c.Name, "extra", token.NoPos, "codec "+c.Name+" is not in the table", nil)
 		}
 	}
-	r.Expect("table.slots", 350)
+	if cs.skipped == 0 {
+		r.Expect("table.slots", 350)
+	}
 	// fixture cross-validation of the frozen table (static parse; informational unless the table itself disagrees)
 	if fx, err := readFixtures(); err == nil {
 		agree, dis := crossValidateFixtures(spec.Messages, fx)
